@@ -66,6 +66,11 @@ func mkConn(p *vpipe.Pipe, k connCfg) *websocket.Conn {
 	return websocket.VerifNewConn(p, k.Client, comp, k.Thr)
 }
 
+func init() {
+	// every execution starts with cold package-level state in the library
+	vs.RegisterReset(websocket.VerifResetGlobals)
+}
+
 func fill(tag byte, n int) []byte {
 	b := make([]byte, n)
 	for i := range b {
